@@ -725,6 +725,9 @@ def gen_compare(L, K, rng):
     g = ScriptGen(L, K, rng, domain=rng.choice([2, 3]))
     nf = nfixed(L)
     fixed0 = [rng.choice([0, 1, 2, 2, 3]) for _ in range(nf)]
+    if nf == len(L) and rng.random() < 0.2:
+        fixed0 = [0] * nf          # elements of zero bytes: only their number distinguishes vectors
+        g.stat("cmp-zero-byte-elements")
     nv = rng.choice([2, 2, 3])
     base = []
     for s in range(nv):
